@@ -9,3 +9,4 @@ import LyModel.Props.C06UO
 #print axioms LyModel.Props.C06UO.diff_userord_flat_ll_sim
 #print axioms LyModel.Props.C06UO.apply_userord_flat_ll_sim
 #print axioms LyModel.Props.C06UO.apply_diff_userord_flat_ll
+#print axioms LyModel.Props.C06UO.apply_diff_userord_flat_ll_dec
